@@ -2,7 +2,7 @@
 """Mutation self-test: for each /verif/mutants/<ID>-*.patch apply it to /repo, run ./check <ID>, require a VIOLATION, restore.
 usage: tools/run_mutants.py [prefix ...]   (exit 1 if a mutant is missed)"""
 import glob, os, re, subprocess, sys
-REPO, VERIF = "/repo", "/verif"
+REPO, VERIF = os.environ.get("ZK_REPO", "/repo"), "/verif"
 
 
 def main():
